@@ -42,6 +42,39 @@ func (c *ctx) streamR() error {
 			// long repeated scalar fields (thousands of elements): large-payload paths of the packed writers
 			inflateLists(&v, 1500+c.r.Intn(3000))
 		}
+		// cold phase: G goroutines marshal G DIFFERENT messages none of which has been marshalled
+		// before (state that Marshal might keep between calls — a size hint, a pooled buffer — is
+		// then written concurrently); each result must equal the sequential one computed afterwards
+		if i%3 == 0 {
+			cold := make([]picobuf.Message, G)
+			coldOut := make([][]byte, G)
+			for g := range cold {
+				cv := gen.Message(c.r, l.File, name, c.valOpts(), 0)
+				if g%2 == 1 {
+					inflateLists(&cv, 20+c.r.Intn(400))
+				}
+				cold[g] = l.Reg.ToStruct(name, cv)
+			}
+			var cwg sync.WaitGroup
+			for g := range cold {
+				cwg.Add(1)
+				go func(g int) {
+					defer cwg.Done()
+					defer func() { _ = recover() }()
+					coldOut[g], _ = picobuf.Marshal(cold[g])
+				}(g)
+			}
+			cwg.Wait()
+			for g := range cold {
+				want, bad := realMarshal(cold[g])
+				if bad == "" && !c.sameBytes(l, name, coldOut[g], want) {
+					c.disagree(Disagreement{Kind: "concurrent!=sequential", Check: "concurrent-equals-sequential",
+						Case: caseOf(l, name, map[string]string{"what": "first-time concurrent Marshal of distinct messages", "goroutine": fmt.Sprint(g)}),
+						Got:  map[string]string{"concurrent": short(hexs(coldOut[g])), "sequential": short(hexs(want))}})
+					break
+				}
+			}
+		}
 		vs := v.String()
 		msg := l.Reg.ToStruct(name, v)
 		data, bad := realMarshal(msg)
